@@ -150,7 +150,7 @@ def parse_unit(path):
             elif first == 'selfparam':
                 cur.selfparam = rest
             elif first == 'assert':
-                m = re.match(r'([\w.\-]+)\s*(?:\[([^\]]*)\])?\s*(after|before)(?:\[(\d+)\])?\s*`(.*?)`\s*:\s*(.*)$', rest, re.S)
+                m = re.match(r'([\w.\-]+)\s*(?:\[([^\]]*)\])?\s*(after|before|loopend)(?:\[(\d+)\])?\s*(?:`(.*?)`)?\s*:\s*(.*)$', rest, re.S)
                 if not m:
                     err('bad assert')
                 props = m.group(2).replace(',', ' ').split() if m.group(2) else list(cur.props)
@@ -201,12 +201,14 @@ def parse_unit(path):
                     fn.rewrites.append((rule, mm.group(1), mm.group(2), multi))
                 pending = (setter, [m.group(2)])
             elif first == 'insert':
-                m = re.match(r'(after|before|start|end)(?:\[(\d+)\])?\s*(?:`(.*?)`)?\s*:\s*(.*)$', rest, re.S)
+                m = re.match(r'(after|before|start|end|loopend|loopstart)(?:\[(\d+)\])?\s*(?:`(.*?)`)?\s*:\s*(.*)$', rest, re.S)
                 if not m:
                     err('bad insert')
                 where, anchor = m.group(1), m.group(3)
                 if m.group(2):
                     anchor = (anchor, int(m.group(2)))
+                if where in ('loopend', 'loopstart'):
+                    anchor = int(m.group(2) or 0)
 
                 def setter(t, where=where, anchor=anchor, fn=cur):
                     fn.inserts.append((where, anchor, t))
@@ -657,9 +659,16 @@ def emit_fn(asm, unit, fs, src, canary):
     # named assertions (obligations with a clause id, placed at an anchor inside the body)
     for c in fs.clauses:
         if c.kind == 'assert':
-            j = find_unique(src, c.anchor, bo, bc + 1, f'assert {c.cid}')
-            alen = len(c.anchor[0]) if isinstance(c.anchor, tuple) else len(c.anchor)
-            pos = j + alen if c.where == 'after' else j
+            if c.where == 'loopend':
+                lps = src.loops(bo, bc)
+                n = c.anchor[1] if isinstance(c.anchor, tuple) else 0
+                if n >= len(lps):
+                    raise Lost(f'lost anchor: assert {c.cid}: loop {n} not found')
+                pos = lps[n][3]
+            else:
+                j = find_unique(src, c.anchor, bo, bc + 1, f'assert {c.cid}')
+                alen = len(c.anchor[0]) if isinstance(c.anchor, tuple) else len(c.anchor)
+                pos = j + alen if c.where == 'after' else j
             asm.clauses[c.cid] = c
             ed.edits.append((pos, pos, '\n proof { assert(\n', ('gen',)))
             ed.edits.append((pos, pos, f'            {c.text}\n', ('clause', c.cid)))
@@ -716,6 +725,13 @@ def emit_fn(asm, unit, fs, src, canary):
                              ('canary', f'{fs.qual}.loop{n}')))
     if len(loops) and canary:
         pass
+    for where, anchor, text in fs.inserts:
+        if where in ('loopend', 'loopstart'):
+            if anchor >= len(loops):
+                raise Lost(f'lost anchor: {fs.qual} has {len(loops)} loops, insert addresses loop {anchor}')
+            kw_start, kw, lbo, lbc = loops[anchor]
+            pos = lbc if where == 'loopend' else lbo + 1
+            ed.edits.append((pos, pos, '\n' + text + '\n', ('proof', fs.qual)))
     # every loop must carry a decreases (Verus insists); unaddressed loops are reported by Verus itself.
     pieces = ed.render()
     # header
